@@ -159,8 +159,23 @@ def site_aliases(src):
     return langs, res
 
 
-def universe(src):
-    info = c03_magics.analyse(src)
+def fallback_info(dyn, why):
+    """the name universe from the IMPORTED module (worker introspection) when the translator's static analysis of magics.py
+    raises: the translator stays fail-closed (broken obligation), but the search must go on looking for a concrete input"""
+    chains = dyn.get("chains", {})
+    magics = [{"name": n, "layers": [], "sig": (0, 0, True), "strconst": chains.get(n) == "str"}
+              for n in dyn.get("public", []) if n == n.upper() and chains.get(n) not in (None, "none") and not str(chains.get(n)).startswith("other:")]
+    return {"magics": magics, "dummies": sorted(dyn.get("dummies", [])), "registry": [{"name": k} for k in dyn.get("registry", [])],
+            "unreachable": [], "own_public": [], "decorators": {}, "pp": {"patterns": [], "problems": []}, "fallback": why}
+
+
+def universe(src, dyn=None):
+    try:
+        info = c03_magics.analyse(src)
+    except Exception as e:  # noqa: BLE001 - fail-closed for the verdict (see run()), but keep searching
+        if not dyn:
+            raise
+        info = fallback_info(dyn, "%s: %s" % (type(e).__name__, e))
     builtins = []      # (call name, canonical fingerprint name, kind)
     dummies = set(info["dummies"])
     for m in info["magics"]:
@@ -680,8 +695,8 @@ def corpus_calls(g):
               limit=r.get("limit"), budget=r.get("budget"), cpu_limit=r.get("cpu_limit"), family=r.get("family"))
 
 
-def generate(rng, tier, src):
-    info, builtins, impl, unimpl, langs = universe(src)
+def generate(rng, tier, src, dyn=None):
+    info, builtins, impl, unimpl, langs = universe(src, dyn)
     g = Gen(rng, tier)
     corpus_calls(g)
     g.directed()
@@ -816,6 +831,31 @@ def cross_check(run, info, dyn):
                        "%d patterns" % len(rt) if not probs else "; ".join(sorted(set(probs))[:3]))
 
 
+def regex_cross_check(run, info, dyn):
+    """the compiled regular expressions the IMPORTED modules of the expansion path really hold (and those a Parser instance builds
+    for every known site) are the statically evaluated ones, and each is free of nested overlapping quantifiers - judged on the
+    pattern object itself, whatever the source looks like (so it still works when the static analysis gave up)"""
+    from vt.gen import c03_static
+    rt = dyn.get("rx_patterns")
+    if rt is None:
+        run.obligation("C03 regexes of the expansion path: worker introspection lists the compiled patterns", False, "no rx_patterns")
+        return
+    errs = dyn.get("rx_errors") or []
+    static = {(rel.split("/")[-1][:-3], pat) for rel, pat, _f in info.get("regexes", {}).get("patterns", [])}
+    mod_rt = [(t, p) for t, p, _f in rt if not t.startswith("parser-instance:")]
+    unknown = sorted(x for x in mod_rt if x not in static) if not info.get("fallback") else []
+    run.obligation("C03 regexes of magics/magic_nodes/magic_time/expr/parser/scanner: every pattern compiled in the imported modules is one "
+                   "the translator evaluated from the source", not unknown and not errs,
+                   "%d module patterns, %d patterns of Parser instances" % (len(mod_rt), len(rt) - len(mod_rt)) if not unknown and not errs
+                   else "not in the static list: %s %s" % (unknown[:3], errs[:2]))
+    probs = []
+    for t, p, f in rt:
+        probs += ["%s: %s" % (t, x) for x in c03_static.regex_problems(p, f)]
+    run.obligation("C03 regexes of the expansion path: no compiled pattern (module globals, Parser.name2rx of all known sites) nests an "
+                   "unbounded repetition inside an unbounded repetition over overlapping characters", not probs,
+                   "%d patterns" % len(rt) if not probs else "; ".join(sorted(set(probs))[:3]))
+
+
 def limits(n):
     return CPU_BASE + CPU_PER_CHAR * n, OUT_BASE + OUT_PER_CHAR * n
 
@@ -893,10 +933,21 @@ def short(c):
 def run(run, src):
     tier = run.tier
     nproc = max(1, min(16, core.NPROC))
-    info, builtins, impl, unimpl, langs, calls, alias_called = generate(run.rng, tier, src)
+    dyn, dyn_err = None, None
     try:
         dyn = introspect(src)
-        cross_check(run, info, dyn)
+    except Exception as e:  # noqa: BLE001
+        dyn_err = e
+    info, builtins, impl, unimpl, langs, calls, alias_called = generate(run.rng, tier, src, dyn)
+    if info.get("fallback"):
+        run.obligation("C03 static analysis of the dispatch table (translator) succeeded; the search enumerated the names of the "
+                       "imported module instead", False, info["fallback"])
+    try:
+        if dyn is None:
+            raise dyn_err
+        if not info.get("fallback"):
+            cross_check(run, info, dyn)
+        regex_cross_check(run, info, dyn)
     except Exception as e:  # noqa: BLE001
         run.obligation("C03 static dispatch table = dir(MagicResolver) of the imported module", False, "introspection failed: %s" % e)
     # calls of one `group` are ranked by size: a larger one is only tried when the smaller ones of its group have passed
